@@ -179,6 +179,13 @@ func genOpOfKind(rt *rapid.T, cfg *opConfig, k string) *Op {
 	case "Print":
 		if cfg.args != nil {
 			op.Args = cfg.args(rt, "pa")
+		} else if rapid.IntRange(0, 3).Draw(rt, "prb") == 0 {
+			// a pre-redacted operand (copied verbatim into the destination)
+			pr := &PrintS{Args: []*Val{{K: "SafeString", S: genText(rt, "prs", 2)}, {K: "str", S: genText(rt, "pru", 2)}}}
+			op.Args = []*Val{{K: pick(rt, "prk", []string{"rb", "rb", "rs"}), Pr: pr}}
+			if rapid.Bool().Draw(rt, "pr2") {
+				op.Args = append(op.Args, &Val{K: "str", S: genPayload(rt, cfg, "ps")})
+			}
 		} else {
 			op.Args = []*Val{{K: "str", S: genPayload(rt, cfg, "ps")}}
 		}
